@@ -133,6 +133,16 @@ MUTANTS = {
         ('seglist-skip-first', 'dashlive/mpeg/dash/representation.py', '                rv.init = sp\n                first = False\n', '                rv.init = sp\n'),
         ('vod-last', 'dashlive/mpeg/dash/representation.py', 'return (self.start_number, self.num_media_segments + self.start_number - 1)', 'return (self.start_number, self.num_media_segments + self.start_number)'),
         ('vod-time-round', 'dashlive/mpeg/dash/representation.py', 'st = segment_time + (self.segment_duration >> 2)', 'st = segment_time + (self.segment_duration >> 1)'),
+        ('load-segdur-abs', 'dashlive/mpeg/dash/representation.py', 'seg_dur = (segment_start_time - rv.start_time) // (len(rv.segments) - 2)', 'seg_dur = segment_start_time // (len(rv.segments) - 2)'),
+        ('load-extend-size', 'dashlive/mpeg/dash/representation.py', 'seg.size = atom.position - seg.pos + atom.size', 'seg.size = atom.position - seg.pos'),
+        ('load-no-free', 'dashlive/mpeg/dash/representation.py', "elif atom.atom_type in ['sidx', 'moov', 'mdat', 'free'] and rv.segments:", "elif atom.atom_type in ['sidx', 'moov', 'mdat'] and rv.segments:"),
+        ('load-startnum-last', 'dashlive/mpeg/dash/representation.py', '                if segment_start_number is None:\n                    segment_start_number = atom.mfhd.sequence_number\n                    rv.start_number', '                if True:\n                    segment_start_number = atom.mfhd.sequence_number\n                    rv.start_number'),
+        ('load-notfdt-zero', 'dashlive/mpeg/dash/representation.py', '                    segment_start_time = segment_end_time\n', '                    segment_start_time = 0\n'),
+        ('load-segdur-count', 'dashlive/mpeg/dash/representation.py', '// (len(rv.segments) - 2)', '// (len(rv.segments) - 1)'),
+        ('load-start-time-last', 'dashlive/mpeg/dash/representation.py', '                if representation_start_time is None:\n                    representation_start_time = segment_start_time', '                if True:\n                    representation_start_time = segment_start_time'),
+        ('load-dur-end-time', 'dashlive/mpeg/dash/representation.py', '                seg.duration = dur\n', '                seg.duration = segment_end_time\n'),
+        ('load-mediadur-skip', 'dashlive/mpeg/dash/representation.py', '                rv.mediaDuration += seg.duration\n', '                rv.mediaDuration = seg.duration\n'),
+        ('load-ftyp-noappend', 'dashlive/mpeg/dash/representation.py', "                    sys.stdout.write('I')\n                    sys.stdout.flush()\n                rv.segments.append(seg)", "                    sys.stdout.write('I')\n                    sys.stdout.flush()\n                    rv.segments.append(seg)"),
         ('vod-mod', 'dashlive/mpeg/dash/representation.py', '            mod_segment = 1 + segment_num - self.start_number\n', '            mod_segment = segment_num - self.start_number\n'),
     ],
     'C02': [
